@@ -1279,7 +1279,7 @@ func runFiter(c fiterCase, sec *vh.Section) (lines, impls []string, ok bool) {
 		si.evs = append(si.evs, model.LogEvent{Timestamp: e.Ts, Msg: []byte(e.Msg), Fields: field.Fields(e.Fields)})
 	}
 	var tr *model.TimeRange
-	mn, mx := int64(model.MinTimestamp), int64(model.MaxTimestamp)
+	mn, mx := minTs, maxTs
 	if c.Range != nil {
 		tr = &model.TimeRange{MinTs: c.Range[0], MaxTs: c.Range[1]}
 		mn, mx = c.Range[0], c.Range[1]
@@ -1464,6 +1464,10 @@ func sectionFiter(rng *vh.Rng) {
 			e.Ts = int64(j*2) + int64(rng.Intn(2)) + 3 // distinct, around the literal 10
 			if aroundBig {
 				e.Ts += bigT - 12 // distinct, around the literal 1552307683123456789
+			} else if i%4 == 1 {
+				e.Ts -= 14 // crossing zero: -11 … 8, around the literal -5 (events before the Unix epoch are events)
+			} else if i%4 == 3 {
+				e.Ts -= 1500000000000000000 // far before the epoch (1922): no default range may cut them off
 			}
 			e.MsgHex, e.FldHex = vh.HxS(e.Msg), vh.HxS(e.Fields)
 			c.Events = append(c.Events, e)
@@ -1539,6 +1543,9 @@ type e2eCase struct {
 	// Retry: the held-cursor scenario — one partition, WaitTimeout > 0 (the server keeps the cursor between the requests),
 	// pages of 2: page 1, page 2, page 2 AGAIN (the same request sent twice: same ReqId, the older position), page 3
 	Retry bool      `json:"retry,omitempty"`
+	// ReuseAfter: the held-ReqId scenario (reuse.go): `WHERE <ReuseAfter>` with WaitTimeout 1 first, then the same ReqId and the
+	// returned position with `WHERE <Text>` (equal length)
+	ReuseAfter string `json:"reuse_after,omitempty"`
 	Text  string    `json:"text"`
 	Want  string    `json:"want_ast,omitempty"`
 	Range *[2]int64 `json:"range,omitempty"`
@@ -1561,7 +1568,7 @@ func e2eEvents() []e2eEvent {
 		evs = append(evs, e2eEvent{Part: i % 2, Ts: int64(i + 1), Msg: msgs[i], Fields: flds[i]})
 	}
 	// timestamps at the literals: 10 is there (i=9); -5 and the date
-	evs = append(evs, e2eEvent{0, -6, "neg6", "a=n"}, e2eEvent{1, -5, "neg5", "a=n"}, e2eEvent{0, -4, "neg4", "a=n"},
+	evs = append(evs, e2eEvent{0, -6, "neg6", "a=n"}, e2eEvent{1, -5, "neg5", "a=n"}, e2eEvent{0, -4, "neg4", "a=n"}, e2eEvent{1, -1500000000000000000, "ab", "a=ab,b=10"}, e2eEvent{0, -1499999999999999999, "A b", "a=x,a=y"},
 		e2eEvent{1, absNano - 1, "d-1", "a=d"}, e2eEvent{0, absNano, "d", "a=d"}, e2eEvent{1, absNano + 1, "d+1", "a=d"},
 		e2eEvent{0, bigT - 21, "t-21", "a=t"}, e2eEvent{1, bigT - 1, "t-1", "a=t"}, e2eEvent{0, bigT, "t", "a=t"}, e2eEvent{1, bigT + 1, "t+1", "a=t"},
 		e2eEvent{0, bigT2 - 1, "u-1", "a=u"}, e2eEvent{1, bigT2, "u", "a=u"}, e2eEvent{0, bigT2 + 1, "u+1", "a=u"})
@@ -1768,7 +1775,7 @@ func sectionE2E(rng *vh.Rng, extra []e2eCase) {
 		} else {
 			lines = append(lines, "specexpr "+realAstString(exp))
 		}
-		mn, mx := int64(model.MinTimestamp), int64(model.MaxTimestamp)
+		mn, mx := minTs, maxTs
 		if c.Range != nil {
 			mn, mx = c.Range[0], c.Range[1]
 		}
@@ -1852,6 +1859,7 @@ func sectionE2E(rng *vh.Rng, extra []e2eCase) {
 	res.Sample(map[string]interface{}{"section": "e2e", "query": outs[len(outs)-1].q, "returned": len(outs[len(outs)-1].got), "of": len(all)})
 	e2eRetry(srv, sec, cases, rng)
 	e2eCallers(srv, sec, cases, kinds)
+	e2eReuse(srv, sec, cases)
 	res.Done(sec)
 }
 
@@ -2036,7 +2044,7 @@ func e2eRetry(srv *lrsrv.Srv, sec *vh.Section, cases []e2eCase, rng *vh.Rng) {
 		} else {
 			lines = append(lines, "specexpr "+realAstString(exps[i]))
 		}
-		lines = append(lines, fmt.Sprintf("spec.filter %d %d %s", int64(model.MinTimestamp), int64(model.MaxTimestamp), sb.String()))
+		lines = append(lines, fmt.Sprintf("spec.filter %d %d %s", minTs, maxTs, sb.String()))
 	}
 	ans, err := vh.Batch(args.Driver, lines)
 	if err != nil {
